@@ -41,9 +41,26 @@ class SetMutator(CollectionAttrMutator):
             raise ValueError(
                 f"Attempted to add an invalid item `{repr(item)}` to `{self.attr_spec.qualified_name}`. Expected item of type `{type_label(self.attr_spec.item_type)}`."
             )
-        if index is not MISSING and index is not None and replace:
+        removed = MISSING
+        if (
+            index is not MISSING
+            and index is not None
+            and replace
+            and index in self.collection
+        ):
+            try:  # If set supports lookup, remember the stored item (e.g. KeyedSet)
+                removed = self.collection[index]
+            except TypeError:
+                removed = index
             self.collection.discard(index)
-        self.collection.add(item)
+        try:
+            self.collection.add(item)
+        except BaseException:
+            # The set refused the new item (e.g. a `KeyedSet` enforcing item
+            # equivalence); do not lose the item it was meant to replace.
+            if removed is not MISSING:
+                self.collection.add(removed)
+            raise
 
     def add_item(self, item, *, value_or_index=MISSING, replace=True, attrs=None):  # pylint: disable=arguments-differ
         return self._mutate_collection(
